@@ -1,6 +1,7 @@
 """C18 -- shared const objects are thread-safe with schedule-independent results
 (proof of the access discipline + ThreadSanitizer / differential validation that the code follows it; partial)."""
 import collections
+import glob
 import os
 import re
 import vlib
@@ -38,7 +39,13 @@ VARIANTS = ["rel", "tsan"]
 # candidate findings of the unchanged code (see notes/C18.md): reported in the evidence, gating only once listed in
 # known_findings.json (the integrator decides)
 DTREE_FP = "fit-dtree-tie"
+TABLE_FP = "fit-table-tie"
 CANDIDATES = {
+    TABLE_FP: ("gboost with two look-up-table weak learners in its pool (kbest / ksplit / dense / dstep) fits a different model "
+               "depending on the number of dataset-pool workers and even from run to run with the same number: on a categorical "
+               "feature the prototypes fit the same table with mathematically equal scores, the ulp-level re-association noise of "
+               "the per-thread accumulators decides which prototype wins a round and the boosting diverges from there (predictions "
+               "differ by tens of percent; bit-identical with a dataset pool of one worker, TSan clean: not a data race)"),
     DTREE_FP: ("gboost with decision-tree weak learners (depth > 1) fits a different model depending on the number of pool "
                "workers / the schedule: in small tree nodes several (feature, threshold) pairs have exactly the same score and "
                "the one kept is the one of the worker with the smallest id that saw a minimal score (min_reduce over "
@@ -71,7 +78,7 @@ def _tsan_reports(out):
             cur = [l]
         elif cur is not None:
             cur.append(l)
-            if l.startswith("SUMMARY: ThreadSanitizer") or len(cur) > 120:
+            if l.startswith("SUMMARY: ThreadSanitizer") or len(cur) > 1500:
                 reps.append(cur)
                 cur = None
     if cur:
@@ -104,10 +111,12 @@ def analyse(r, exe, mode, out, rc, tag, drv, cands):
         pos = out.find(rep[0])
         before = [l for l in out[:pos].split("\n") if l.startswith(("LOOP", "USER", "TUNET", "TUNEB", "FIT"))]
         frames = [l.strip() for l in rep if re.match(r"\s+#\d+ ", l)]
+        # the report without the deep std::future / pthread frames of each stack
+        short = [l[:300] for l in rep if not (re.match(r"\s+#(\d+) ", l) and int(re.match(r"\s+#(\d+) ", l).group(1)) > 7)]
         innano = [f for f in frames if "nano::" in f and "c18_shared.cpp" not in f]
         r.violation("%s-race-%d" % (tag, i), {
             "kind": "ThreadSanitizer report while shared const objects were used concurrently",
-            "summary": [l for l in rep if l.startswith("SUMMARY")][:1], "report": [l[:300] for l in rep[:80]],
+            "summary": [l for l in rep if l.startswith("SUMMARY")][:1], "report": short[:90],
             "frames_in_libnano": innano[:12],
             "last_completed_scenario_line": (before[-1][:300] if before else "(none: first scenario of the run)"),
             "replay_cmd": replay_cmd(None, 0) + "   # the report names the racing accesses; scenarios run in a fixed order"})
@@ -146,6 +155,8 @@ def analyse(r, exe, mode, out, rc, tag, drv, cands):
 
 def run(tier, replay=None):
     r = vlib.Run("C18", tier)
+    for old in glob.glob(os.path.join(vlib.OUTDIR, "replays", "C18-%d-*.json" % r.seed)):  # replays of an earlier run with this seed
+        os.remove(old)
     cres = vlib.coq_check("C18", targets=["theories/Extract_C18.vo", "theories/Properties_C18.vo"])
     exe = vlib.build_harness("c18_shared", "rel")
     texe = vlib.build_harness("c18_shared", "tsan")
